@@ -819,6 +819,40 @@ pub fn boundary(ctx: &Ctx, rep: &mut Report) {
     overflow_v::<F1024>(ctx, rep);
     rep.require("overflow_layout_triples", 20);
     rep.require("overflow_two-step-block", 2);
+    // valid triples on (salt, message) pairs whose hash stream is EXTREME (many rejected chunks
+    // early, a threshold chunk late in the stream; found with the reference SHAKE, see C14): with
+    // s2 = 1 and h = c - s1 the triple is valid exactly if verify hashes to the same point c
+    {
+        let (xs, tails) = super::c14::extreme_inputs_ex(ctx.seed ^ 0x202, ctx.sz(12_000_000, 200_000_000), ctx.sz(400, 6000));
+        for (kind, list) in [("extreme-hash", xs.iter().take(ctx.sz(300, 4000)).collect::<Vec<_>>()), ("late-threshold-hash", tails.iter().take(ctx.sz(150, 2000)).collect::<Vec<_>>())] {
+            for (i, (_, s)) in list.iter().enumerate() {
+                let (salt, msg) = (&s[..40], &s[40..]);
+                for n in [512usize, 1024] {
+                    if n == 1024 && i % 4 != 0 {
+                        continue;
+                    }
+                    let c = spec::hash_to_point(s, n);
+                    let mut s1 = vec![0i64; n];
+                    s1[i % n] = 3;
+                    s1[(i * 7 + 1) % n] = -2;
+                    let h: Vec<i64> = (0..n).map(|t| spec::modq(c[t] - s1[t])).collect();
+                    let mut s2 = vec![0i64; n];
+                    s2[0] = 1;
+                    let pkb = spec::pk_encode(&h);
+                    if n == 512 {
+                        let sg = build_sig::<F512>(salt, &spec::compress(&s2, 625).unwrap());
+                        check_triple::<F512>(kind, msg, &sg, &pkb, rep);
+                    } else {
+                        let sg = build_sig::<F1024>(salt, &spec::compress(&s2, 1239).unwrap());
+                        check_triple::<F1024>(kind, msg, &sg, &pkb, rep);
+                    }
+                    rep.count("valid_triples_on_extreme_hash_inputs", 1);
+                }
+                rep.nontrivial(s);
+            }
+        }
+        rep.require("valid_triples_on_extreme_hash_inputs", 200);
+    }
     interleaved(ctx, rep);
     related_variants(ctx, rep);
     // verify while a thread is being torn down (see C13): crafted triples at the bound
